@@ -29,6 +29,9 @@ type blockSite struct {
 type blockInfo struct {
 	p    *engine.Prog
 	memo map[*ssa.Function]*string
+	// recvOf: when a function's reason to wait is a receive from a struct-field channel, that field (a caller that
+	// closed the channel beforehand is draining, not waiting)
+	recvOf map[*ssa.Function]*types.Var
 }
 
 // waitsDirect classifies one instruction as an operation that may wait for another goroutine or for the network.
@@ -78,6 +81,16 @@ func (bi *blockInfo) waits(f *ssa.Function, depth int) string {
 	}
 	bi.memo[f] = nil
 	res := ""
+	closedHere := map[*types.Var]bool{}
+	engine.ForEachInstr(f, func(in ssa.Instruction) {
+		if call, ok := in.(*ssa.Call); ok {
+			if b, ok := call.Call.Value.(*ssa.Builtin); ok && b.Name() == "close" {
+				if fv, _ := engine.LoadedField(call.Call.Args[0]); fv != nil {
+					closedHere[fv] = true
+				}
+			}
+		}
+	})
 	engine.ForEachInstr(f, func(in ssa.Instruction) {
 		if res != "" {
 			return
@@ -89,6 +102,17 @@ func (bi *blockInfo) waits(f *ssa.Function, depth int) string {
 			return
 		}
 		if w := bi.waitsDirect(in); w != "" {
+			if u, ok := in.(*ssa.UnOp); ok {
+				if fv, _ := engine.LoadedField(u.X); fv != nil {
+					if closedHere[fv] {
+						return // draining a channel this function has closed
+					}
+					if bi.recvOf == nil {
+						bi.recvOf = map[*ssa.Function]*types.Var{}
+					}
+					bi.recvOf[f] = fv
+				}
+			}
 			res = w + " in " + bi.p.FuncName(f)
 			return
 		}
@@ -146,43 +170,6 @@ func dynamicCall(call *ssa.Call) bool {
 	}
 	return true
 }
-
-func blockingUnderLock(p *engine.Prog, li *engine.LockInfo) map[string][]blockSite {
-	bi := &blockInfo{p: p, memo: map[*ssa.Function]*string{}}
-	out := map[string][]blockSite{}
-	for _, f := range p.RepoFuncs() {
-		f := f
-		engine.ForEachInstr(f, func(in ssa.Instruction) {
-			if _, isGo := in.(*ssa.Go); isGo {
-				return
-			}
-			if _, isDefer := in.(*ssa.Defer); isDefer {
-				return
-			}
-			why := bi.waitsDirect(in)
-			if call, ok := in.(*ssa.Call); ok && why == "" {
-				if dynamicCall(call) {
-					why = "call through a function value of type " + typeShort(call.Call.Value.Type())
-				} else {
-					why = bi.calleeWaits(call, 1)
-				}
-			}
-			if why == "" {
-				return
-			}
-			held := li.HeldAt(in)
-			if len(held) == 0 {
-				return
-			}
-			names := held.Names()
-			sort.Strings(names)
-			key := p.FuncName(f) + " holds " + strings.Join(names, ",")
-			out[key] = append(out[key], blockSite{in, why})
-		})
-	}
-	return out
-}
-
 
 // confirmedWaitsUnderLock: the sites of the confirmed tree where a mutex is deliberately held across a wait (read and
 // confirmed one by one); anything else that can wait while a mutex is held is reported.
@@ -249,6 +236,11 @@ func checkNoWaitUnderLock(c *engine.Ctx, li *engine.LockInfo, rule string) {
 					why = "call through a function value of type " + typeShort(call.Call.Value.Type())
 				} else {
 					why = bi.calleeWaits(call, 1)
+					if cf := engine.CalleeFn(call); cf != nil && strings.HasPrefix(why, "channel receive") {
+						if fv := bi.recvOf[cf]; fv != nil && closedHere[fv] {
+							return // the helper drains a channel this function closed before calling it
+						}
+					}
 				}
 			}
 			if why == "" {
